@@ -55,9 +55,25 @@ def norm_index(I, idx, n):
     return mk(z3.If(zi >= 0, zi, zi + zn), "int")
 
 
+def coerce_key(I, idx, kkind, absent_exc=KeyError):
+    """A dynamically typed value used as key of a map whose keys have kind `kkind`."""
+    if not isinstance(idx, DynV):
+        return idx
+    d = dyn_sort()
+    if kkind == "str":
+        if not I.path.branch(d.is_s(idx.e), f"key-is-str@{I.cur_line}"):
+            if absent_exc is None:
+                return None
+            I.raise_(absent_exc)
+        return mk(d.sval(idx.e), "str")
+    raise Unsupported(f"dynamic key for a map keyed by {kkind}")
+
+
 def getitem(I, base, idx):
     if isinstance(base, Maybe):
         base = I.unwrap(base)
+    if isinstance(base, SDict):
+        idx = coerce_key(I, idx, base.kkind)
     if isinstance(base, PList):
         if isinstance(idx, slice):
             if all(x is None or isinstance(x, int) for x in (idx.start, idx.stop, idx.step)):
@@ -152,7 +168,11 @@ def setitem(I, base, idx, value):
         if I.is_concrete(idx):
             base.items[idx] = value
             return
-        raise Unsupported(f"store of symbolic key into concrete dict at {I.where()}")
+        from .values import promote_dict
+
+        promote_dict(base, kind_of(idx))
+        base.store(idx, value)
+        return
     if isinstance(base, SDict):
         base.store(idx, value)
         return
@@ -209,8 +229,7 @@ def seq_len(I, v):
     if isinstance(v, PDict):
         return len(v.items)
     if isinstance(v, SDict):
-        if v.n is None:
-            raise Unsupported("len of a symbolic map without enumeration")
+        v.ensure_enum(I.path)
         return v.n
     if isinstance(v, Arr):
         if v.ndim == 0:
@@ -278,6 +297,8 @@ def m_isinstance(I, args, kw):
         v = I.unwrap(v)
     classes = cls if isinstance(cls, tuple) else (cls,)
     classes = tuple(_untype(c) for c in classes)
+    if hasattr(v, "sym_isinstance"):
+        return v.sym_isinstance(I, classes)
     if isinstance(v, DynV):
         D = dyn_sort()
         conds = []
@@ -428,8 +449,7 @@ def m_list(I, args, kw):
     if isinstance(s, SList) and not isinstance(s.length, int):
         return SList(s.length, s.elem, s.tag)
     if isinstance(s, SDict):
-        if s.n is None:
-            raise Unsupported("list() of a symbolic map without enumeration")
+        s.ensure_enum(I.path)
         return SList(s.n, s.key_at, "keys")
     if isinstance(s, Opaque) and s.tag.startswith("h5"):
         from . import models_h5
@@ -866,6 +886,9 @@ def d_setdefault(I, self, key, default=None):
 
 @method(SDict, "get")
 def sd_get(I, self, key, default=None):
+    key = coerce_key(I, key, self.kkind, None)
+    if key is None:
+        return default
     has = zbool(self.has(key))
     if default is None:
         return maybe(has, self.get(key))
@@ -880,22 +903,21 @@ def sd_get(I, self, key, default=None):
 
 @method(SDict, "items")
 def sd_items(I, self):
-    if self.n is None:
-        raise Unsupported("items() of a symbolic map without enumeration")
+    self.ensure_enum(I.path)
     return SList(self.n, lambda i, _s=self: (_s.key_at(i), _s.get(_s.key_at(i))), "items")
 
 
 @method(SDict, "keys")
 def sd_keys(I, self):
-    if self.n is None:
-        raise Unsupported("keys() of a symbolic map without enumeration")
-    return SList(self.n, self.key_at, "keys")
+    self.ensure_enum(I.path)
+    out = SList(self.n, self.key_at, "keys")
+    out.keys_of = self  # x in d.keys()  <=>  x in d
+    return out
 
 
 @method(SDict, "values")
 def sd_values(I, self):
-    if self.n is None:
-        raise Unsupported("values() of a symbolic map without enumeration")
+    self.ensure_enum(I.path)
     return SList(self.n, lambda i, _s=self: _s.get(_s.key_at(i)), "values")
 
 
